@@ -518,6 +518,42 @@ func atpcFacts(a Args) {
 		fmt.Fprintf(&sb, "  { fn := %q, call := %q, depth := %d, cond := %q, tail := %v }", ws.Fn, ws.Call, ws.Depth, ws.Cond, ws.Tail)
 	}
 	sb.WriteString("\n]\n\n")
+	// which mutex fields each function locks (`<x>.<field>.Lock()`), in source order
+	sb.WriteString("/-- mutex fields locked by each function of client.go (function literals count for their function) -/\n")
+	sb.WriteString("def locks : List (String × List String) := [\n")
+	firstLock := true
+	for _, d := range f.Decls {
+		fd, ok := d.(*ast.FuncDecl)
+		if !ok || fd.Body == nil {
+			continue
+		}
+		var names []string
+		ast.Inspect(fd.Body, func(n ast.Node) bool {
+			if c, ok := n.(*ast.CallExpr); ok {
+				if sel, ok := c.Fun.(*ast.SelectorExpr); ok && (sel.Sel.Name == "Lock" || sel.Sel.Name == "RLock") {
+					if s2, ok := sel.X.(*ast.SelectorExpr); ok {
+						seen := false
+						for _, x := range names {
+							seen = seen || x == s2.Sel.Name
+						}
+						if !seen {
+							names = append(names, s2.Sel.Name)
+						}
+					}
+				}
+			}
+			return true
+		})
+		if len(names) == 0 {
+			continue
+		}
+		if !firstLock {
+			sb.WriteString(",\n")
+		}
+		firstLock = false
+		fmt.Fprintf(&sb, "  (%q, %s)", fd.Name.Name, atpcLeanList(names))
+	}
+	sb.WriteString("\n]\n\n")
 	sb.WriteString("/-- methods of `*client` -/\ndef methods : List String := " + atpcLeanList(atpcKeys(w.methods)) + "\n\n")
 	sb.WriteString("end Arca.Gen.AtpClientFacts\n")
 	out := a.Out
